@@ -147,4 +147,5 @@ def run(ctx):
             if rep == 0:
                 ns[0] = max_n
             _case(ctx, cap, ns, bool(rng.random() < 0.5), idx)
+            ctx.gc(4)
             idx += 1
